@@ -6,7 +6,8 @@ For each: the repository's own suite is run (it must still pass, otherwise the m
 'suite-fails' and says nothing), then the listed quick checks are run; exit 1 with a VIOLATION line
 counts as detected.  Results go to /verif/mutants/RESULTS.md and /verif/mutants/results.json.
 
-usage: mutants.py [--no-suite] [id ...]
+usage: mutants.py [id ...]               run the listed quick checks against each mutant applied to /repo (reverted after)
+       mutants.py --suite-only [id ...]  run only the repository's own suite for each mutant, in a scratch worktree under /tmp
 """
 import json, os, subprocess, sys, time
 
@@ -404,13 +405,56 @@ mut('m65-no-finalize-at-unpin', ['C20', 'C15'], I, '''            if self.handle
 
 
 def sh(cmd, cwd=None, timeout=1800):
-    p = subprocess.run(cmd, shell=True, cwd=cwd, stdout=subprocess.PIPE, stderr=subprocess.STDOUT, timeout=timeout)
-    return p.returncode, p.stdout.decode(errors='replace')
+    # own process group, so that a hanging test binary can be killed together with its cargo
+    p = subprocess.Popen(cmd, shell=True, cwd=cwd, stdout=subprocess.PIPE, stderr=subprocess.STDOUT, start_new_session=True)
+    try:
+        out, _ = p.communicate(timeout=timeout)
+        return p.returncode, out.decode(errors='replace')
+    except subprocess.TimeoutExpired:
+        import signal
+        os.killpg(p.pid, signal.SIGKILL)
+        p.communicate()
+        return -9, 'TIMEOUT'
+
+
+
+def suite_only(args):
+    """Run only the repository's own suite for each mutant, in a scratch worktree (independent of
+    /repo's working tree and of the harness build)."""
+    wt = '/tmp/wt-mutants'
+    sh('git worktree remove --force %s; git worktree prune; git worktree add -q %s HEAD' % (wt, wt), REPO)
+    resf = '/verif/mutants/suite.json'
+    results = json.load(open(resf)) if os.path.exists(resf) else {}
+    try:
+        for m in M:
+            if args and m['id'] not in args:
+                continue
+            if not args and m['id'] in results:
+                continue
+            path = os.path.join(wt, m['file'])
+            src = open(path).read()
+            if src.count(m['old']) != 1:
+                results[m['id']] = 'does-not-apply'; continue
+            open(path, 'w').write(src.replace(m['old'], m['new']))
+            try:
+                rc, out = sh('cargo test --offline --no-fail-fast 2>&1 | grep -E "^test result|FAILED|panicked|^error" | head -20', wt, timeout=240)
+                ok = 'FAILED' not in out and 'panicked' not in out and 'error' not in out and out.count('test result: ok') >= 4
+                results[m['id']] = 'HANGS' if out == 'TIMEOUT' else ('passes' if ok else 'FAILS')
+                print(m['id'], results[m['id']], flush=True)
+            finally:
+                sh('git checkout -- .', wt)
+                json.dump(results, open(resf, 'w'), indent=1)
+    finally:
+        sh('rm -rf %s/target; git worktree remove --force %s; git worktree prune' % (wt, wt), REPO)
 
 
 def main():
     args = [a for a in sys.argv[1:] if not a.startswith('--')]
-    no_suite = '--no-suite' in sys.argv
+    no_suite = True
+    if '--suite-only' in sys.argv:
+        os.makedirs('/verif/mutants', exist_ok=True)
+        suite_only(args)
+        return
     rc, out = sh('git diff --quiet', REPO)
     if rc != 0:
         print('/repo working tree is not clean'); sys.exit(2)
@@ -455,6 +499,10 @@ def main():
             sh('git checkout -- .', REPO)
             json.dump(results, open(resf, 'w'), indent=1)
     # report
+    suite = json.load(open('/verif/mutants/suite.json')) if os.path.exists('/verif/mutants/suite.json') else {}
+    for k, v in suite.items():
+        if k in results:
+            results[k]['suite'] = v
     with open('/verif/mutants/RESULTS.md', 'w') as f:
         f.write('# Hand-written changes vs. the quick checks\n\nGenerated by tools/mutants.py. "suite" = the repository\'s own tests with the change applied.\n\n')
         f.write('| id | change | suite | expected | result | first report |\n|---|---|---|---|---|---|\n')
